@@ -1,4 +1,4 @@
-CONSTANTS Cat <- CatDef Pre <- PrefixDef
+CONSTANTS Cat <- CatDef Pre <- PrefixDef Small0 = FALSE
           Ids = {"Meters", "Feet", "Seconds", "Hertz", "Kelvins", "Celsius", "Radians", "Degrees"}
 SPECIFICATION Spec
 INVARIANTS Exact RewriteSound Canonical OrderTotal
